@@ -5,7 +5,7 @@ server i starts/stops failing}; every explored step is compared with the Lean mo
 judges the contact log of the real code (sliding windows, escapes, eviction, recovery)."""
 import itertools
 
-from common import Ctx, import_repo
+from common import FakeClock, Ctx, import_repo
 
 CLOCK = [0]
 ENV = {}
@@ -220,10 +220,7 @@ def main(argv):
     from pymemcache.client import hash as H
     from pymemcache.exceptions import MemcacheError
 
-    class FakeTime:
-        @staticmethod
-        def time():
-            return CLOCK[0]
+    FakeTime = FakeClock(lambda: CLOCK[0])
     H.time = FakeTime
     R = Runner(H, MemcacheError)
     rng = ctx.rng
@@ -382,6 +379,77 @@ def main(argv):
                 if ("h:0" in c.hasher.nodes) or got != b"vv":
                     ctx.violation("after the probing budget was used up the failing server is still in rotation / its keys are not served by the remaining server",
                                   dict(case, rotation=list(c.hasher.nodes), get=repr(got)[:60]), tags=tags + ["not-evicted"])
+    # ---- server spellings: the failing server given as a (host, port) pair, as a UNIX-socket path, as an IPv6 pair - through the whole cycle
+    #      failure -> probing -> eviction -> recovery -> revival, with real inner Clients.  Judged: only the failing server's own error or "all
+    #      servers down" escapes (nothing with ignore_exc), and once the server is healthy again two dead_timeout periods of traffic bring its keys back ----
+    class OrderHasher:
+        PREF = []
+
+        def __init__(self):
+            self.nodes = []
+
+        def add_node(self, n_):
+            if n_ not in self.nodes:
+                self.nodes.append(n_)
+
+        def remove_node(self, n_):
+            if n_ in self.nodes:
+                self.nodes.remove(n_)
+            else:
+                raise ValueError("no such node")
+
+        def get_node(self, key_):
+            for p_ in self.PREF:
+                if p_ in self.nodes:
+                    return p_
+            return self.nodes[0] if self.nodes else None
+    for failing in (("h", 0), "/var/run/mc0.sock", ("::1", 11211), "unix:/tmp/mc.sock"):
+        for ign in (False, True):
+            for ra in (0, 1, 2):
+                rt, dt = 10, 60
+                CLOCK[0] = 0
+                srvs = {}
+                world = World(server=lambda conn, data: [srvs.setdefault(conn.addr, RefServer()).feed(conn.id, data)])
+                c = H.HashClient([failing, ("h", 1)], hasher=OrderHasher, socket_module=FakeSocketModule(world), retry_attempts=ra, retry_timeout=rt, dead_timeout=dt,
+                                 ignore_exc=ign, default_noreply=False)
+                fkey = c._make_client_key(failing) if not (isinstance(failing, str) and failing.startswith("unix:")) else None
+                nodes0 = list(c.hasher.nodes)
+                OrderHasher.PREF = list(nodes0)
+                faddr = failing if isinstance(failing, tuple) else (failing[5:] if failing.startswith("unix:") else failing)
+                world.refuse_addrs = {faddr}
+                case = {"cfg": {"retry_attempts": ra, "retry_timeout": rt, "dead_timeout": dt, "ignore_exc": ign}, "failing_server": repr(failing), "inner_clients": "real Client objects"}
+                ctx.case(("spelling", repr(failing), ign, ra))
+                ctx.count("server-spelling-cycles")
+                escaped, t, bad = [], 0, None
+                for step in range(70):
+                    t += (1, 1, 3, 1, 11, 1, 1, 2)[step % 8] if step < 40 else 7
+                    if step == 40:
+                        world.refuse_addrs = set()           # the server is healthy again
+                    CLOCK[0] = t
+                    try:
+                        [lambda: c.get("k"), lambda: c.set("k", b"v"), lambda: c.get_many(["k", "j"]), lambda: c.delete("k")][step % 4]()
+                    except OSError:
+                        if ign:
+                            escaped.append((t, "OSError"))
+                    except MemcacheError as e_:
+                        if ign or "All servers" not in str(e_) and "servers seem to be down" not in str(e_):
+                            escaped.append((t, "MemcacheError:" + str(e_)[:40]))
+                    except Exception as e_:
+                        escaped.append((t, type(e_).__name__ + ":" + str(e_)[:60]))
+                if escaped:
+                    bad = f"escaped from a key-addressed call: {escaped[:3]}"
+                elif list(c.hasher.nodes)[:1] != nodes0[:1] and sorted(map(str, c.hasher.nodes)) != sorted(map(str, nodes0)):
+                    bad = f"two dead_timeout periods of traffic after the recovery the rotation is {list(c.hasher.nodes)}, originally {nodes0}"
+                else:
+                    CLOCK[0] = t + 1
+                    try:
+                        c.set("k", b"final", noreply=False)
+                    except Exception as e_:
+                        bad = f"a call after the recovery raised {type(e_).__name__}"
+                    if bad is None and faddr not in [cn.addr for cn in world.conns if cn.sent and b"final" in cn.sent[-1][1]]:
+                        bad = "after the recovery the key is not served by its original server"
+                if bad:
+                    ctx.violation("server spelling " + repr(failing) + ": " + bad, case, tags=["server-spelling"])
     if ctx.lean.build_ok:
         for (cfg, n, evs, out, tags), o in zip(metas, ctx.driver.batch(lines)):
             got = o[3:].split(" || ") if o.startswith("ok ") else [o]
